@@ -38,6 +38,9 @@ def emit_old(d, nested):
         out['associations'].append({'metaconcept': cls, 'association': e[cls]} if nested else {'metaconcept': cls, **e[cls]})
     return out
 
+# asset names beyond ASCII (json.dump escapes a non-BMP character as a surrogate PAIR: a reader must join it again)
+NAMES = ['A', 'B', 'srv\U0001F600', 'é€', 'two words']
+
 def emit_scad_xml(m):
     def cap(s): return s[0].upper() + s[1:]
     lines = ['<?xml version="1.0" encoding="utf-8"?>',
@@ -444,7 +447,7 @@ def run(seed, tier, lean) -> Result:
     for i in range(n):
         r = random.Random(rnd.getrandbits(48))
         spec = LangGen(r, knobs={'dup_assoc_names': 0.4, 'reuse_fields': 0.5}).gen()
-        ops = Gen(r, spec, WEIGHTS, explicit_attacker_ids=False, extras=False).gen(r.randint(4, 30))[:-1]
+        ops = Gen(r, spec, WEIGHTS, explicit_attacker_ids=False, extras=False, names=NAMES).gen(r.randint(4, 30))[:-1]
         cases.append((spec, ops, 'old' if i % 2 else 'scad', r))
     # the real side first (the generated loaders read the very files the real loaders read), then ONE driver batch for the
     # hand-written model and the generated code, then the comparisons
@@ -492,7 +495,7 @@ def genexec_measure(seed: int, n: int) -> dict:
     for i in range(n):
         r = random.Random(rnd.getrandbits(48))
         spec = LangGen(r, knobs={'dup_assoc_names': 0.4, 'reuse_fields': 0.5}).gen()
-        ops = Gen(r, spec, WEIGHTS, explicit_attacker_ids=False, extras=False).gen(r.randint(4, 30))[:-1]
+        ops = Gen(r, spec, WEIGHTS, explicit_attacker_ids=False, extras=False, names=NAMES).gen(r.randint(4, 30))[:-1]
         cases.append((spec, ops, 'old' if i % 2 else 'scad', r))
     sts = []
     for (spec, ops, which, r) in cases:
@@ -544,7 +547,7 @@ def findings(seed=5):
     enter_scratch()
     r = random.Random(seed)
     spec = LangGen(r, knobs={'dup_assoc_names': 0.4, 'reuse_fields': 0.5}).gen()
-    ops = Gen(r, spec, WEIGHTS, explicit_attacker_ids=False, extras=False).gen(12)[:-1]
+    ops = Gen(r, spec, WEIGHTS, explicit_attacker_ids=False, extras=False, names=NAMES).gen(12)[:-1]
     im = Impl(spec)
     for op in ops: im.step(op)
     p = os.path.join(scratch(), 'native.json'); im.m.save_to_file(p)
